@@ -78,9 +78,21 @@ class Gen:
         self.items = []
         self.binaries = binaries
         self.tupled = set()     # names ever bound to a tuple value or by a destructuring pattern
+        # in-memory modules of this history: %inc is a bare function, %m a record of functions that
+        # also exports the type 'point, %kst a constant
+        self.k1, self.k2, self.k3 = rng.randint(1, 9), rng.randint(10, 99), rng.randint(100, 999)
+        self.mods = {
+            "inc": "#'int { [~, %d] __integer_add__ }" % self.k1,
+            "m": "'point = Point[x: 'int, y: 'int]\n[inc: #'int { [~, %d] __integer_add__ }, dec: #'int { [~, %d] __integer_subtract__ }]" % (self.k2, self.k2),
+            "kst": "[%d, 0x%02x]" % (self.k3, self.k1),
+        }
+        self.POINT = ("tup", "Point", ("x", "y"), ("int", "int"))
+        self.imported = set()       # modules imported so far by an ACCEPTED line
+        self.touched_by_reject = set()
         self.stats = dict(bind=0, destructure=0, shadow=0, alias=0, function=0, capture=0, call=0, value=0,
                           consume_prev=0, nil=0, import_=0, reject_parse=0, reject_compile=0, binary_bind=0,
-                          alias_use=0)
+                          alias_use=0, module_use=0, reject_after_import=0, reject_after_first_import=0,
+                          module_use_after_rejected_import=0)
 
     # ------------------------------------------------------------------ helpers
     def fresh(self, p="v"):
@@ -419,8 +431,63 @@ class Gen:
                 val = ("t", "Cons", (None, None), (e[1], val))
         self.add_step(src, None, val, "import-list")      # (recursive result type: not consumed by `~`)
 
+    MODULES = ["inc", "m", "mtype", "kst", "list", "int"]
+
+    def step_module(self, which=None):
+        """A step that uses a module (user modules through the in-memory resolver, or std)."""
+        rng = self.rng
+        which = which or rng.choice(self.MODULES)
+        self.stats["module_use"] += 1
+        if which in self.touched_by_reject:
+            self.stats["module_use_after_rejected_import"] += 1
+        self.imported.add(which)
+        a, av = self.expr("int", 1)
+        if which == "inc":
+            return self.add_step("%s %%inc" % a, "int", ("i", av[1] + self.k1), "module-inc")
+        if which == "m":
+            r = rng.random()
+            if r < 0.4:
+                return self.add_step("%s %%m.inc" % a, "int", ("i", av[1] + self.k2), "module-m")
+            if r < 0.7:
+                return self.add_step("%s %%m.dec" % a, "int", ("i", av[1] - self.k2), "module-m")
+            self.bind("mq", "mod:%m", ("opaque",))
+            self.add_step("mq = %m", "ok", VOK, "module-bind", binds=["mq"])
+            return self.add_step("%s mq.inc" % a, "int", ("i", av[1] + self.k2), "module-m")
+        if which == "mtype":
+            name = self.pick_name()
+            o, ov = self.literal("int")
+            self.bind(name, ("fn", self.POINT, "int"), ("f", lambda p, ov=ov: ("i", p[3][0][1] + ov[1])), src="#fn")
+            self.add_step("%s = #'%%m.point { [.x, %s] __integer_add__ }" % (name, o), "ok", VOK, "module-type", binds=[name])
+            b, bv = self.expr("int", 1)
+            return self.add_step("Point[x: %s, y: %s] %s" % (a, b, name), "int", ("i", av[1] + ov[1]), "module-type-call")
+        if which == "kst":
+            return self.add_step("%kst.0", "int", ("i", self.k3), "module-kst")
+        if which == "int":
+            x, y = rng.randint(-300, 300), rng.randint(0, 70000)
+            return self.add_step("[%d, %d] %%int.xor" % (x, y), "int", ("i", x ^ y), "import-int")
+        e, ev = self.expr("int", 1)
+        val = ("t", "Cons", (None, None), (ev, ("t", "Nil", (), ())))
+        return self.add_step("%%list.new [~, %s] %%list.prepend" % e, None, val, "import-list")
+
+    def reject_after_import(self, which=None):
+        """A line the compiler rejects only AFTER it imported a module / resolved a module type."""
+        rng = self.rng
+        which = which or rng.choice(self.MODULES)
+        self.stats["reject_compile"] += 1
+        self.stats["reject_after_import"] += 1
+        if which not in self.imported and which not in self.touched_by_reject:
+            self.stats["reject_after_first_import"] += 1
+        self.touched_by_reject.add(which)
+        use = {"inc": ["zf = %inc", "3 %inc =zz"], "m": ["zq = %m", "3 %m.inc =zz", "zq = %m, 4 zq.dec =zz"],
+               "mtype": ["zh = #'%m.point { .x }", "'zt = '%m.point"], "kst": ["zk = %kst", "%kst.0 =zz"],
+               "list": ["zl = %list", "%list.new [~, 1] %list.prepend =zz"], "int": ["zi = %int", "[6, 3] %int.xor =zz"]}[which]
+        fail = rng.choice(["nosuch_var", "[0xaa, 1] __integer_add__", "5 nosuch_fn", "yy = 0x00, [yy, 1] __integer_add__"])
+        self.items.append(dict(kind="reject", src="%s, %s" % (rng.choice(use), fail), what="compile-after-import", module=which))
+
     def reject(self):
         rng = self.rng
+        if rng.random() < 0.25:
+            return self.reject_after_import()
         if rng.random() < 0.4:
             self.stats["reject_parse"] += 1
             src = rng.choice(["x = )", "[1, 2", "a = = 3", "#{", "\"abc", "q = #'int { [~, 1] __integer_add__", "5 ; 6", "= ="])
@@ -437,18 +504,33 @@ class Gen:
                 opts.append("yy = %s, [yy, 0x00] __binary_concat__" % rng.choice(iv))
             self.items.append(dict(kind="reject", src=rng.choice(opts), what="compile"))
 
-    def history(self, n_items):
+    def history(self, n_items, scenario=False):
         rng = self.rng
         weights = [("bind", 22), ("destructure", 12), ("alias", 6), ("function", 10), ("call", 12), ("value", 10),
-                   ("consume", 12), ("nil", 2), ("import", 5), ("reject", 9)]
+                   ("consume", 12), ("nil", 2), ("import", 5), ("reject", 9), ("module", 5)]
         names = [w[0] for w in weights]
         ws = [w[1] for w in weights]
+        if scenario:
+            # the shape "a line rejected after it imported module M for the first time, then new
+            # functions / types, then M is used": the cache of modules must not remember anything of
+            # the rejected line
+            for _ in range(rng.randint(0, 2)):
+                rng.choice([self.step_bind, self.step_value, self.step_function])()
+            which = rng.choice(self.MODULES)
+            self.reject_after_import(which)
+            if rng.random() < 0.3:
+                self.reject_after_import(rng.choice(self.MODULES))
+            for _ in range(rng.randint(1, 3)):
+                rng.choice([self.step_function, self.step_function, self.step_alias, self.step_bind])()
+            self.step_module("m" if which == "mtype" and rng.random() < 0.3 else which)
+            if rng.random() < 0.6:
+                self.step_call()
         while len(self.items) < n_items:
             k = rng.choices(names, ws)[0]
             {"bind": self.step_bind, "destructure": self.step_destructure, "alias": self.step_alias,
              "function": self.step_function, "call": self.step_call, "value": self.step_value,
              "consume": self.step_consume, "nil": self.step_nil, "import": self.step_import,
-             "reject": self.reject}[k]()
+             "reject": self.reject, "module": self.step_module}[k]()
             if self.items[-1]["kind"] == "reject":
                 pass        # a rejected line leaves `prev` as it is: the previous result still flows in
         return self.items
@@ -809,17 +891,17 @@ def run(ctx):
         items = [dict(what=it["kind"], **it) for it in c["items"]]
         for it in items:
             it.setdefault("expect", None)
-        splits, nfree, idx, oc, hc = run_real(ctx, exe, items, c.get("workers", 2), 32, rng)
+        splits, nfree, idx, oc, hc = run_real(ctx, exe, items, c.get("workers", 2), 32, rng, c.get("mods"))
         batch.append(dict(items=items, workers=c.get("workers", 2), splits=splits, nfree=nfree, idx=idx, ocases=oc, hcases=hc,
-                          corpus=c.get("name")))
+                          corpus=c.get("name"), mods=c.get("mods")))
     n_corpus = len(batch)
     for h in range(n_hist):
         g = Gen(rng, binaries=(h % 3 == 0))
         n_items = rng.choice([3, 4, 5, 6, 6, 7, 8, 10, 12])
-        items = g.history(n_items)
+        items = g.history(n_items, scenario=(h % 4 == 1))
         workers = rng.choice([1, 2, 2, 3])
-        splits, nfree, idx, oc, hc = run_real(ctx, exe, items, workers, ctx.n(32, 48), rng)
-        batch.append(dict(items=items, workers=workers, splits=splits, nfree=nfree, idx=idx, ocases=oc, hcases=hc))
+        splits, nfree, idx, oc, hc = run_real(ctx, exe, items, workers, ctx.n(32, 48), rng, g.mods)
+        batch.append(dict(items=items, workers=workers, splits=splits, nfree=nfree, idx=idx, ocases=oc, hcases=hc, mods=g.mods))
         for k, v in g.stats.items():
             stats_total[k] = stats_total.get(k, 0) + v
         lens[len(items)] = lens.get(len(items), 0) + 1
@@ -841,9 +923,9 @@ def run(ctx):
             problems += 1
             if problems <= 3:
                 if p.kind == "impl-violation":
-                    small, sp = shrink(ctx, exe, b["items"], b["workers"], rng)
+                    small, sp = shrink(ctx, exe, b["items"], b["workers"], rng, b.get("mods"))
                     sp = sp or p
-                    ctx.violation({"kind": "impl-violation", "what": sp.what, "workers": b["workers"],
+                    ctx.violation({"kind": "impl-violation", "what": sp.what, "workers": b["workers"], "mods": b.get("mods") or {},
                                    "history": [it["src"] for it in small], "detail": sp.detail,
                                    "unshrunk_history": [it["src"] for it in b["items"]]})
                 else:
@@ -896,6 +978,10 @@ def run(ctx):
     problems += model_bad
     cov["evaluations"] = nruns + len(model_lines)
     cov["corpus_histories"] = n_corpus
+    cov["sessions_without_the_rejected_lines_compared"] = sum(1 for b in batch if len(b["hcases"]) == len(b["splits"]) + 1)
+    cov["rejected_after_import"] = stats_total.get("reject_after_import", 0)
+    cov["rejected_after_first_import_of_a_module"] = stats_total.get("reject_after_first_import", 0)
+    cov["module_uses_after_a_rejected_import"] = stats_total.get("module_use_after_rejected_import", 0)
     cov["shadowings"] = stats_total.get("shadow", 0)
     cov["nil_valued_steps"] = stats_total.get("nil", 0)
     cov["generator_exclusions"] = (
@@ -929,7 +1015,8 @@ def replay(ctx, exe):
     r = json.load(open(ctx.replay_path))
     lines = r.get("history") or r.get("lines") or []
     w = r.get("workers", 2)
-    _, outs = ctx.run_bin(exe, [hist_case(w, lines)])
+    mods = r.get("mods") or {}
+    _, outs = ctx.run_bin(exe, [hist_case(w, lines, mods)])
     sess = parse_session(outs[0]) or []
     items = []
     for l, d in zip(lines, sess):
@@ -939,8 +1026,11 @@ def replay(ctx, exe):
     items += [dict(kind="step", src=l, what="replay", expect=None) for l in lines[len(items):]]
     splits = [set(range(1, len(items)))]
     idx = [j for j, it in enumerate(items) if it["kind"] == "step"]
-    (res,), _ = evaluate_batch(ctx, exe, [dict(ocases=[one_case(w, one_program(items, j)) for j in idx],
-                                                hcases=[hist_case(w, lines)], idx=idx)])
+    hcases = [hist_case(w, lines, mods)]
+    if any(it["kind"] == "reject" for it in items) and any(it["kind"] != "reject" for it in items):
+        hcases.append(hist_case(w, [it["src"] for it in items if it["kind"] != "reject"], mods))
+    (res,), _ = evaluate_batch(ctx, exe, [dict(ocases=[one_case(w, one_program(items, j), mods) for j in idx],
+                                                hcases=hcases, idx=idx)])
     try:
         check_history(items, res[0], res[1], splits)
         print("replay: no failure on the current tree")
